@@ -1108,6 +1108,19 @@ class UGrid(DimensionConvention[UGridKind, UGridIndex]):
             dimensions[UGridKind.edge] = [self.topology.edge_dimension]
         return dimensions
 
+    @property
+    def grid_shape(self) -> dict[UGridKind, Sequence[int]]:
+        # The mesh can name an edge dimension that no variable in the dataset uses.
+        # The topology knows how many edges there are regardless.
+        topology = self.topology
+        shape: dict[UGridKind, Sequence[int]] = {
+            UGridKind.node: (topology.node_count,),
+            UGridKind.face: (topology.face_count,),
+        }
+        if topology.has_edge_dimension:
+            shape[UGridKind.edge] = (topology.edge_count,)
+        return shape
+
     def unpack_index(self, index: UGridIndex) -> tuple[UGridKind, Sequence[int]]:
         return index[0], index[1:]
 
